@@ -68,6 +68,7 @@ func runC14(c *Ctx) {
 	r.Rule("na-flags", "override set, router/solicited clear", 3)
 	r.Rule("hunt-admin", "StartHunt filters and idempotence; StopHunt", 5)
 	runNDPSiblings(c)
+	runNDPWideArith(c)
 	r.Rule("router-fields", "each Router field comes from the like-meaning RA getter and is updated by every advertisement", 18)
 
 	rel := "handlers/icmp_spoofer"
